@@ -42,7 +42,10 @@ def in_domain(cs, x):
 
 
 def coeffs(rng, n):
-    style = rng.choice(["int", "int", "log", "log", "cancel", "small", "sparse"])
+    style = rng.choice(["int", "int", "log", "log", "cancel", "small", "sparse", "no_const"])
+    if style == "no_const":
+        # no constant term: the value is of the size of c1*x, so anything that drops the higher terms for small |x| shows
+        return style, [rng.choice([0.0, -0.0])] + [rng.choice([1.0, -2.0, rng.uniform(-3, 3), rng.small_int(-5, 5)]) for _ in range(n - 1)]
     if style == "int":
         return style, [rng.small_int(-9, 9) for _ in range(n)]
     if style == "log":
@@ -62,6 +65,8 @@ def coeffs(rng, n):
 
 def argument(rng, style):
     r = rng.random()
+    if style == "no_const" and r < 0.6:
+        return rng.choice([2.0 ** -53, -2.0 ** -60, 1e-17, -3e-19, 2.0 ** -100, 2.0 ** -40, -2.0 ** -52, 1e-12, 0.5, -3.0])
     if style == "int" and r < 0.7:
         return rng.small_int(-4, 4)
     if r < 0.15:
@@ -99,7 +104,8 @@ class P(Prop):
                 out.append(K.kernel_case("Poly%d::evaluate" % k, cs + [x], cls="poly/" + style))
             for _ in range(max(2, per // 3)):
                 style, cs = coeffs(rng, k + 1)
-                v = rng.choice([rng.uniform(0.01, 20), rng.f64_loguniform(-30, 30, signed=False), 1.0, 2.718281828459045, 5e-324, 1e-310])
+                v = rng.choice([rng.uniform(0.01, 20), rng.f64_loguniform(-30, 30, signed=False), 1.0, 2.718281828459045, 5e-324, 1e-310,
+                                1.0 + 2.0 ** -52, 1.0 - 2.0 ** -53, 1.0 + 2.0 ** -40])
                 out.append(K.kernel_case("Log<Poly%d>::evaluate" % k, cs + [v], cls="log/" + style, libm=True))
         maxlen = 12 if tier == "quick" else 64
         for _ in range(3 * per):
